@@ -490,4 +490,170 @@ theorem half_turn_both_dominant (p q : Fin d → ℝ) (hp : p ⬝ᵥ p = 1) (hq 
     rw [outerSum_mulVec, Fin.sum_univ_two]
     simp [hq, hpq]
 
+/-! ## histories -/
+
+/-- product of the exponentials of a history, the latest increment on the left -/
+noncomputable def expProd : List (V3 ℝ) → Q ℝ
+  | [] => ⟨1, 0, 0, 0⟩
+  | r :: rs => (expProd rs).mul (quatExp r)
+
+theorem expProd_normSq (rs : List (V3 ℝ)) : (expProd rs).normSq = 1 := by
+  induction rs with
+  | nil => simp [expProd, Q.normSq]
+  | cons r rs ih => simp only [expProd]; rw [normSq_mul, ih, quatExp_normSq, mul_one]
+
+theorem sumChain_eq_prod (q : Q ℝ) (rs : List (V3 ℝ)) : sumChain q rs = (expProd rs).mul q := by
+  induction rs generalizing q with
+  | nil => simp [sumChain, expProd, one_mul']
+  | cons r rs ih => simp only [sumChain, expProd]; rw [ih, quatSum, mul_assoc']
+
+theorem sumChain_append (q : Q ℝ) (rs ss : List (V3 ℝ)) :
+    sumChain q (rs ++ ss) = sumChain (sumChain q rs) ss := by
+  induction rs generalizing q with
+  | nil => rfl
+  | cons r rs ih => simp only [List.cons_append, sumChain]; exact ih _
+
+theorem quatSum_neg_cancel (q : Q ℝ) (r : V3 ℝ) : quatSum (quatSum q r) r.neg = q := by
+  unfold quatSum
+  rw [quatExp_neg, ← mul_assoc', conj_mul_self, quatExp_normSq, one_mul']
+
+theorem sumChain_unwind (q : Q ℝ) (rs : List (V3 ℝ)) :
+    sumChain (sumChain q rs) (rs.reverse.map V3.neg) = q := by
+  induction rs generalizing q with
+  | nil => rfl
+  | cons r rs ih =>
+    simp only [sumChain, List.reverse_cons, List.map_append, List.map_cons, List.map_nil]
+    rw [sumChain_append, ih]
+    simp only [sumChain]
+    exact quatSum_neg_cancel q r
+
+theorem sumTrace_unit (q : Q ℝ) (hq : q.normSq = 1) (rs : List (V3 ℝ)) :
+    ∀ p ∈ sumTrace q rs, p.normSq = 1 := by
+  induction rs generalizing q with
+  | nil => intro p hp; simp [sumTrace] at hp
+  | cons r rs ih =>
+    intro p hp
+    simp only [sumTrace, List.mem_cons] at hp
+    have hu : (quatSum q r).normSq = 1 := by
+      unfold quatSum; rw [normSq_mul, quatExp_normSq, hq, mul_one]
+    rcases hp with rfl | hp
+    · exact hu
+    · exact ih _ hu p hp
+
+theorem sumTrace_last (q : Q ℝ) (rs : List (V3 ℝ)) :
+    (q :: sumTrace q rs).getLast (List.cons_ne_nil _ _) = sumChain q rs := by
+  induction rs generalizing q with
+  | nil => rfl
+  | cons r rs ih =>
+    simp only [sumTrace, sumChain]
+    rw [List.getLast_cons (List.cons_ne_nil _ _)]
+    exact ih _
+
+theorem sumTrace_length (q : Q ℝ) (rs : List (V3 ℝ)) : (sumTrace q rs).length = rs.length := by
+  induction rs generalizing q with
+  | nil => rfl
+  | cons r rs ih => simp only [sumTrace, List.length_cons]; rw [ih]
+
+/-! ## group operations -/
+
+theorem conj_conj (q : Q ℝ) : q.conj.conj = q := by
+  ext <;> simp [Q.conj]
+
+theorem conj_vec_norm (q : Q ℝ) : q.conj.vec.norm = q.vec.norm := by
+  rw [V3.norm_def, V3.norm_def]; simp [Q.conj, Q.vec]
+
+theorem quatLog_conj (q : Q ℝ) : quatLog q.conj = (quatLog q).neg := by
+  by_cases h : cutoffLog < q.vec.norm
+  · have h' : cutoffLog < q.conj.vec.norm := by rw [conj_vec_norm]; exact h
+    by_cases hw : 0 ≤ q.w
+    · rw [quatLog_pos _ h' (by simpa [Q.conj] using hw), quatLog_pos _ h hw, conj_vec_norm]
+      ext <;> simp only [Q.conj, V3.neg] <;> ring
+    · rw [not_le] at hw
+      rw [quatLog_neg _ h' (by simpa [Q.conj] using hw), quatLog_neg _ h hw, conj_vec_norm]
+      ext <;> simp only [Q.conj, V3.neg] <;> ring
+  · rw [quatLog_cut q (not_lt.mp h), quatLog_cut q.conj (by rw [conj_vec_norm]; exact not_lt.mp h)]
+    ext <;> simp [V3.neg]
+
+
+/-! ### the one-axis sigma-point family (sharpness of the symmetric-centre gap) -/
+
+theorem ofCol_vCols {n : Nat} (f : Fin n → V3 ℝ) (i : Fin n) : V3.ofCol (vCols f) i = f i := by
+  cases h : f i; simp [V3.ofCol, vCols, V3.get, h]
+
+/-- the one-axis sigma-point family: centre `1`, rotation vectors `0, (θ,0,0), (-θ,0,0)`, weights `w0, w1, w1` -/
+noncomputable def rAxis (θ : ℝ) : Fin 3 → V3 ℝ := ![⟨0, 0, 0⟩, ⟨θ, 0, 0⟩, (⟨θ, 0, 0⟩ : V3 ℝ).neg]
+def wAxis (w0 w1 : ℝ) : Fin 3 → ℝ := ![w0, w1, w1]
+
+theorem exp_axis (θ : ℝ) (h : cutoff < θ) : quatExp (⟨θ, 0, 0⟩ : V3 ℝ) = ⟨Real.cos (θ / 2), Real.sin (θ / 2), 0, 0⟩ := by
+  have h0 : 0 < θ := lt_trans cutoff_pos h
+  have hn := norm_x_axis θ h0.le
+  rw [quatExp_regular _ (by rw [hn]; exact h), hn]
+  ext <;> simp only <;> (try field_simp) <;> (try ring)
+
+theorem sum_axis0 (θ : ℝ) : quatSum ⟨1, 0, 0, 0⟩ (rAxis θ 0) = ⟨1, 0, 0, 0⟩ := by
+  have h0 : rAxis θ 0 = ⟨0, 0, 0⟩ := rfl
+  rw [h0, quatSum, quatExp_cut _ (by rw [V3.norm_zero]; exact cutoff_pos.le), mul_one']
+
+theorem sum_axis1 (θ : ℝ) (h : cutoff < θ) :
+    quatSum ⟨1, 0, 0, 0⟩ (rAxis θ 1) = ⟨Real.cos (θ / 2), Real.sin (θ / 2), 0, 0⟩ := by
+  have h1 : rAxis θ 1 = ⟨θ, 0, 0⟩ := rfl
+  rw [h1, quatSum, exp_axis θ h, mul_one']
+
+theorem sum_axis2 (θ : ℝ) (h : cutoff < θ) :
+    quatSum ⟨1, 0, 0, 0⟩ (rAxis θ 2) = ⟨Real.cos (θ / 2), -Real.sin (θ / 2), 0, 0⟩ := by
+  have h2 : rAxis θ 2 = (⟨θ, 0, 0⟩ : V3 ℝ).neg := rfl
+  rw [h2, quatSum, quatExp_neg, exp_axis θ h, mul_one']
+  ext <;> simp [Q.conj]
+
+/-- the matrix of the family applied to a vector: `diag(w0 + 2 w1 cos²(θ/2), 2 w1 sin²(θ/2), 0, 0)` -/
+theorem axis_mulVec (θ w0 w1 : ℝ) (h : cutoff < θ) (u : Fin 4 → ℝ) :
+    outerSum (wAxis w0 w1) (fun i => (quatSum ⟨1, 0, 0, 0⟩ (rAxis θ i)).get) *ᵥ u
+      = ![(w0 + 2 * w1 * Real.cos (θ / 2) ^ 2) * u 0, 2 * w1 * Real.sin (θ / 2) ^ 2 * u 1, 0, 0] := by
+  funext a
+  rw [outerSum_mulVec, Fin.sum_univ_three, sum_axis0, sum_axis1 θ h, sum_axis2 θ h]
+  fin_cases a <;>
+    simp [wAxis, dotProduct, Fin.sum_univ_four, Q.get] <;> ring
+
+/-- the gap of `mean_symmetric_centre_partial` on the family: `Σ w_i (2 exp(r_i)_w² − 1) = w0 + 2 w1 cos θ` -/
+theorem axis_gap (θ w0 w1 : ℝ) (h : cutoff < θ) :
+    ∑ i, wAxis w0 w1 i * (2 * (quatExp (rAxis θ i)).w ^ 2 - 1) = w0 + 2 * w1 * Real.cos θ := by
+  have e0 : quatExp (rAxis θ 0) = ⟨1, 0, 0, 0⟩ := quatExp_cut _ (by show (⟨0, 0, 0⟩ : V3 ℝ).norm ≤ cutoff; rw [V3.norm_zero]; exact cutoff_pos.le)
+  have e1 : quatExp (rAxis θ 1) = ⟨Real.cos (θ / 2), Real.sin (θ / 2), 0, 0⟩ := exp_axis θ h
+  have e2 : (quatExp (rAxis θ 2)).w = Real.cos (θ / 2) := by
+    show (quatExp (⟨θ, 0, 0⟩ : V3 ℝ).neg).w = _
+    rw [quatExp_neg, exp_axis θ h]; rfl
+  have hc : Real.cos θ = 2 * Real.cos (θ / 2) ^ 2 - 1 := by
+    rw [← Real.cos_two_mul]; ring_nf
+  rw [Fin.sum_univ_three, e0, e1, e2, hc]
+  simp [wAxis]; ring
+
+/-- when `w0 + 2 w1 cos θ < 0` the centre is an eigenvector of a smaller eigenvalue than `(0,1,0,0)`: it does not meet the
+    contract, and `(0,1,0,0)` (the centre turned by half a turn about the axis) is what meets it when `w1 > 0` -/
+theorem axis_not_dominant (θ w0 w1 : ℝ) (h : cutoff < θ) (hgap : w0 + 2 * w1 * Real.cos θ < 0) :
+    ¬ IsDominantEigvec (outerSum (wAxis w0 w1) (fun i => (quatSum ⟨1, 0, 0, 0⟩ (rAxis θ i)).get)) (⟨1, 0, 0, 0⟩ : Q ℝ).get := by
+  rintro ⟨_, lam, hlam, hmax⟩
+  have hc : Real.cos θ = 2 * Real.cos (θ / 2) ^ 2 - 1 := by
+    rw [← Real.cos_two_mul]; ring_nf
+  have hs : Real.sin (θ / 2) ^ 2 = 1 - Real.cos (θ / 2) ^ 2 := by linarith [Real.sin_sq_add_cos_sq (θ / 2)]
+  rw [axis_mulVec θ w0 w1 h] at hlam
+  have h0 := congrFun hlam 0
+  simp [Q.get] at h0
+  -- `lam = w0 + 2 w1 cos²(θ/2)`; the eigenvector `(0,1,0,0)` has the larger eigenvalue `2 w1 sin²(θ/2)`
+  have hu : (⟨0, 1, 0, 0⟩ : Q ℝ).get ≠ 0 := by
+    intro h; have := congrFun h 1; simp [Q.get] at this
+  have := hmax (2 * w1 * Real.sin (θ / 2) ^ 2) (⟨0, 1, 0, 0⟩ : Q ℝ).get hu (by
+    rw [axis_mulVec θ w0 w1 h]
+    funext a; fin_cases a <;> simp [Q.get])
+  rw [← h0, hs] at this
+  rw [hc] at hgap
+  nlinarith
+
+
+theorem isDominant_of_neg {d : Nat} (M : Matrix (Fin d) (Fin d) ℝ) (v : Fin d → ℝ) (h : IsDominantEigvec M (-v)) :
+    IsDominantEigvec M v := by
+  obtain ⟨h1, lam, h2, h3⟩ := h
+  refine ⟨by simpa using h1, lam, ?_, h3⟩
+  have := congrArg Neg.neg h2
+  simpa [Matrix.mulVec_neg] using this
+
 end BFL.Quat
